@@ -17,9 +17,10 @@ Inductive lockst :=
 | Free
 | ByConsWait                  (* consumer holds it, queue was empty: pending Unlock, then select *)
 | ByConsRet (r : option N)    (* consumer holds it, about to return r: pending (deferred) Unlock *)
+| ByConsPop (r : option N)    (* consumer holds it inside Pop, about to return r (None: the queue was empty) *)
 | ByProd (i : nat) (sent : bool).  (* producer i holds it; item pushed; pending select(send) / Unlock *)
 
-Inductive cpc := CStart | CWantLock | CHolding | CSelect | CParked | CDone.
+Inductive cpc := CStart | CPopLock | CPopHold | CWantLock | CHolding | CSelect | CParked | CDone.
 
 Record producer := { p_started : bool; p_items : list N }.
 
@@ -29,6 +30,7 @@ Record state := {
   tok : N;                     (* tokens buffered in the signal channel *)
   cancelled : bool;
   c_pc : cpc;
+  c_prepop : nat;              (* Pop calls the consumer still makes BEFORE it starts waiting *)
   c_want : nat;                (* remaining WaitForItem calls *)
   c_got : list (option N);     (* results so far, newest first *)
   prods : list producer;
@@ -45,15 +47,41 @@ Definition tid_cancel : N := 99.
 
 Definition upd (s : state) (m : lockst) (q' : list N) (tok' : N) (canc : bool) (pc : cpc) (want : nat)
            (got : list (option N)) (ps : list producer) (k : option bool) (pu po : list N) : state :=
-  {| mtx := m; q := q'; tok := tok'; cancelled := canc; c_pc := pc; c_want := want; c_got := got;
+  {| mtx := m; q := q'; tok := tok'; cancelled := canc; c_pc := pc; c_prepop := c_prepop s; c_want := want; c_got := got;
      prods := ps; canceller := k; pushed := pu; popped := po |}.
+
+Definition set_prepop (n : nat) (s : state) : state :=
+  {| mtx := mtx s; q := q s; tok := tok s; cancelled := cancelled s; c_pc := c_pc s; c_prepop := n; c_want := c_want s;
+     c_got := c_got s; prods := prods s; canceller := canceller s; pushed := pushed s; popped := popped s |}.
+
+(* where the consumer goes once its Pop calls are over *)
+Definition after_pops (s : state) : cpc := match c_want s with O => CDone | _ => CWantLock end.
 
 (* consumer steps; returns the list of possible successors (empty = not enabled) *)
 Definition cstep (s : state) : list state :=
   match c_pc s with
   | CStart =>
-    [upd s (mtx s) (q s) (tok s) (cancelled s) (match c_want s with O => CDone | _ => CWantLock end)
+    [upd s (mtx s) (q s) (tok s) (cancelled s) (match c_prepop s with O => after_pops s | S _ => CPopLock end)
          (c_want s) (c_got s) (prods s) (canceller s) (pushed s) (popped s)]
+  | CPopLock =>
+    (* Pop: lock; take the front item if there is one; (deferred) unlock *)
+    match mtx s with
+    | Free =>
+      match q s with
+      | [] => [upd s (ByConsPop None) (q s) (tok s) (cancelled s) CPopHold (c_want s) (c_got s) (prods s) (canceller s) (pushed s) (popped s)]
+      | x :: q' => [upd s (ByConsPop (Some x)) q' (tok s) (cancelled s) CPopHold (c_want s) (c_got s) (prods s) (canceller s) (pushed s) (popped s ++ [x])]
+      end
+    | _ => []
+    end
+  | CPopHold =>
+    match mtx s with
+    | ByConsPop r =>
+      let n' := pred (c_prepop s) in
+      [set_prepop n' (upd s Free (q s) (tok s) (cancelled s) (match n' with O => after_pops s | S _ => CPopLock end) (c_want s)
+                          (match r with Some x => Some x :: c_got s | None => c_got s end)
+                          (prods s) (canceller s) (pushed s) (popped s))]
+    | _ => []
+    end
   | CWantLock =>
     match mtx s with
     | Free =>
@@ -135,10 +163,11 @@ Definition step (cap : N) (s : state) (tid : N) : list state :=
   else if tid =? tid_cancel then kstep s
   else pstep cap s (N.to_nat tid - 1).
 
-Definition init (items : list (list N)) (want : nat) (with_cancel : bool) : state :=
-  {| mtx := Free; q := []; tok := 0; cancelled := false; c_pc := CStart; c_want := want; c_got := [];
+Definition init_pop (prepop : nat) (items : list (list N)) (want : nat) (with_cancel : bool) : state :=
+  {| mtx := Free; q := []; tok := 0; cancelled := false; c_pc := CStart; c_prepop := prepop; c_want := want; c_got := [];
      prods := map (fun l => {| p_started := false; p_items := l |}) items;
      canceller := if with_cancel then Some false else None; pushed := []; popped := [] |}.
+Definition init (items : list (list N)) (want : nat) (with_cancel : bool) : state := init_pop 0 items want with_cancel.
 
 (* ---------- observables ---------- *)
 
@@ -147,6 +176,8 @@ Definition init (items : list (list N)) (want : nat) (with_cancel : bool) : stat
 Definition cstatus (s : state) : N :=
   match c_pc s with
   | CStart => 0
+  | CPopLock => match mtx s with Free => 1 | _ => 5 end
+  | CPopHold => 2
   | CWantLock => match mtx s with Free => 1 | _ => 5 end
   | CHolding => 2
   | CSelect => 3
@@ -291,12 +322,18 @@ Fixpoint pqouts_eqb (a b : list pqout) : bool :=
 Inductive case :=
 | CSched (cap : N) (items : list (list N)) (want : nat) (with_cancel : bool)
          (sched : list N) (obs : list (list N)) (final_got : list (option N)) (final_q : list N)
+(* the same with a consumer that first calls Pop [prepop] times (non-blocking) and then waits *)
+| CSchedPop (cap : N) (prepop : nat) (items : list (list N)) (want : nat) (with_cancel : bool)
+         (sched : list N) (obs : list (list N)) (final_got : list (option N)) (final_q : list N)
 | CPrio (ops : list pqop) (obs : list pqout).
 
 Definition check_case (c : case) : bool :=
   match c with
   | CSched cap items want wc sched obs got fq =>
     let s0 := init items want wc in
+    existsb (fun s => opts_eqb (rev (c_got s)) got && list_eqb (q s) fq) (follow cap [s0] sched obs)
+  | CSchedPop cap pp items want wc sched obs got fq =>
+    let s0 := init_pop pp items want wc in
     existsb (fun s => opts_eqb (rev (c_got s)) got && list_eqb (q s) fq) (follow cap [s0] sched obs)
   | CPrio ops obs => pqouts_eqb (pqrun [] ops) obs
   end.
